@@ -230,6 +230,13 @@ namespace igris
                     break;
 
                 default:
+                    // a character that does not fit is dropped and must not
+                    // be echoed
+                    if (_line.current_size() + 1 >= _line.storage_size())
+                    {
+                        retcode = READLINE_OVERFLOW;
+                        break;
+                    }
                     _line.newdata(c);
                     retcode = READLINE_ECHOCHAR;
                     break;
